@@ -472,7 +472,16 @@ class History:
                       outcome=out)
             return
         if fired is not None:
-            return      # relaxed: no claim about the faulted call itself
+            # relaxed: no claim about the faulted call itself - and that
+            # includes whatever it wrote back (pandas' C hashtable swallows
+            # an exception raised inside __eq__/__hash__, so an interrupted
+            # VLOOKUP can "complete" with a wrong value): what is stored now
+            # is "the last value computed" for these cells
+            for a in clos:
+                if a in model.cells:
+                    acc.setdefault(a, set()).add(
+                        _j(canon(model.cells[a].value)))
+            return
         # ---- oracle 1: equals the fresh twin -------------------------------
         if out != want:
             self.fail('stale-or-wrong-value', seq, target=target, got=out,
